@@ -102,10 +102,13 @@ def main():
     run.samples.append(dict(family='lifecycle', script=cases[5][2]['script'], trace=cases[5][2]['observed'], result=cases[5][2]['result']))
     obey_cases(run)
     exit_after_cases(run)
+    import corr_proto as cp
+    cp.proto_component_check(run, {'C08'}, 0, run.n(200, 5000))     # exit announcements travel as OOB messages through the sender machine
     run.rule = ('scripted Filter subclass under the real Filter.run over the in-memory ZeroMQ: every lifecycle point (constructor, init before/after '
                 'the MQ exists, setup, k-th process, shutdown, send_exit_msg, fini) x outcome (ok, exit(), Exception, propagated error, '
                 'KeyboardInterrupt) as single faults under all 4 propagate policies and both loop_exc settings, plus random multi-fault scripts; '
-                'all obey policies x both exit kinds on the real on_exit_msg; exit_after in all forms against a virtual clock; '
+                'all obey policies x both exit kinds on the real on_exit_msg; exit_after in all forms against a virtual clock; the real ZMQSender on '
+                'request/OOB/CLOSE histories (exit announcements from registered, unregistered and evicted clients must be handed up); '
                 'non-trivial = at least one fault; distinct by hash of the script')
     run.partial = ['whole-pipeline termination with matching policies (an exit at any filter of a chain/tee/rejoin reaches every neighbour) is explored in '
                    'pipeline mode (C06/C03 checks), not proved: C08_pipeline_terminates_partial',
